@@ -33,8 +33,6 @@ struct ET<Eigen::Matrix<std::complex<S>, R, C>> {
     static bool same(const E &a, const E &b) { return a == b; }
     static std::string name() { return "Eigen::Matrix<complex<" + std::string(sname<S>()) + ">," + std::to_string(R) + "," + std::to_string(C) + ">"; }
 };
-// listed finding: value_type/eigen.hpp computes x^H y (conjugate-linear in the FIRST argument) for Eigen block values
-template <class S, int R, int C> struct InnerKnown<Eigen::Matrix<std::complex<S>, R, C>> { static const char *id() { return "F-eigenblock-inner-conj"; } };
 } // namespace c07
 
 using namespace c07;
@@ -236,7 +234,7 @@ static std::vector<Prop> props() {
         Prop("matvec_eblk3", prop_matvec<eblk3>, 800, 8000, 100, 150, th, 1, 2),
         Prop("vecops_eblk3", prop_vecops<eblk3>, 800, 8000, 100, 150, {1}, 1, 2),
         Prop("matvec_ecblk2", prop_matvec<ecblk2>, 600, 6000, 100, 150, {1}, 1, 2),
-        Prop("inner_ecblk2", prop_inner<ecblk2>, 300, 3000, 100, 60, {1, 4}, 1, 2),
+        Prop("inner_ecblk2", prop_inner<ecblk2>, 600, 6000, 100, 60, {1, 4}, 1, 2),
     };
 }
 static std::vector<Enum> enums() { return {}; }
